@@ -10,6 +10,11 @@ I->S : (exact) lattice runs with the real random draws validated by LatticeTrace
        independent monitor recomputes for every accepted placement: minimum-image distance to the predecessor = step factor x
        mean size, inside the box, start on a grid point, >= 0.1 nm from every other residue, soft-sphere force from positioned
        non-neighbours within the cut-off <= limit; WalkTrace requires these booleans on every PlaceOk / PlaceRootOk.
+Histories : one process builds several systems one after the other (LatticeWalk.History / NextBuild / memo): the molecule names
+       come back with another residue graph (chain / ring / star), length and count; with Force = TRUE the force criterion is
+       decided exactly on the lattice (ForceOK, ForceWithinLimit: neighbours of the system being built).  S->I: exported
+       two-system histories replayed in one process; I->S: lattice histories with real draws (LatticeTrace, "build" events),
+       gen_coords called several times in one process (one WalkTrace trace per call, monitor parameters of that call).
 """
 import json
 import random
@@ -30,16 +35,29 @@ FIX = c.VERIF / "selftest" / "fixtures"
 
 # ------------------------------------------------------------------ geometric monitor (independent of polyply's code)
 
-def monitor_obs(eng, mol, mol_idx, node, prev, step_fudge, max_force, box, grid=None, nrexcl=1):
+def monitor_obs(eng, mol, mol_idx, node, prev, step_fudge, max_force, box, grid=None, nrexcl=1, sizes=None, mols=None):
+    """sizes / mols: residue sizes by residue name as the harness wrote them into the build file of THIS run and the molecules of the
+    topology of THIS run: pair sizes (mean) and the cut-off (twice the largest size) are then taken from them and not from the engine"""
     gndx = eng.nodes_to_gndx[(mol_idx, node)]
     p = np.asarray(eng.positions[gndx], float)
     obs, raw = {}, {}
+    if sizes is not None:
+        rev = {g: key for key, g in eng.nodes_to_gndx.items()}
+
+        def pair(ga, gb):
+            (ma, na), (mb, nb) = rev[int(ga)], rev[int(gb)]
+            return 0.5 * (sizes[mols[ma].nodes[na]["resname"]] + sizes[mols[mb].nodes[nb]["resname"]]), 1.0
+        cut_off = 2.0 * max(sizes[m.nodes[n]["resname"]] for m in mols for n in m.nodes)
+    else:
+        def pair(ga, gb):
+            return eng.interaction_matrix[frozenset([eng.atypes[ga], eng.atypes[gb]])]
+        cut_off = eng.cut_off
     obs["in_box"] = bool(np.all(p >= 0) and np.all(p < box + 1e-12))
     if prev is not None:
         q = np.asarray(eng.positions[eng.nodes_to_gndx[(mol_idx, prev)]], float)
         d = p - q
         d -= box * np.round(d / box)
-        sig = eng.interaction_matrix[frozenset([eng.atypes[gndx], eng.atypes[eng.nodes_to_gndx[(mol_idx, prev)]]])][0]
+        sig = pair(gndx, eng.nodes_to_gndx[(mol_idx, prev)])[0]
         raw["dist"], raw["step"] = float(np.linalg.norm(d)), float(step_fudge * sig)
         obs["dist_ok"] = bool(abs(raw["dist"] - raw["step"]) <= 1e-6)
     elif grid is not None:
@@ -58,8 +76,8 @@ def monitor_obs(eng, mol, mol_idx, node, prev, step_fudge, max_force, box, grid=
         rr = np.linalg.norm(dd, axis=1)
         mind = float(rr.min())
         for g, dv, r in zip(fin, dd, rr):
-            if r <= eng.cut_off and g not in excl:
-                sig, eps = eng.interaction_matrix[frozenset([eng.atypes[gndx], eng.atypes[g]])]
+            if r <= cut_off and g not in excl:
+                sig, eps = pair(gndx, g)
                 force += 24.0 * eps * (2.0 * sig ** 12 / r ** 13 - sig ** 6 / r ** 7) * dv / r
     raw["min_d"], raw["force"] = (mind if np.isfinite(mind) else -1.0), float(np.linalg.norm(force))
     obs["sep_ok"] = bool(mind >= 0.1)
@@ -72,7 +90,7 @@ def make_monitor(step_fudge, max_force, grid_holder):
         if ev["ev"] == "finish":
             # at the end every residue of every molecule has a finite position inside the box (a residue taken back and never regenerated has none)
             eng = rec.engine
-            box = np.asarray(eng.boxsize, float)
+            box = np.asarray(grid_holder["box"] if grid_holder.get("box") is not None else eng.boxsize, float)
             bad = []
             for mi, mol in enumerate(rec.topology.molecules):
                 for node in mol.nodes:
@@ -89,7 +107,9 @@ def make_monitor(step_fudge, max_force, grid_holder):
         node = (ev["cur"] if ev["ev"] == "ok" else ev["node"]) - 1
         prev = ev["prev"] - 1 if ev["ev"] == "ok" else None
         eng = rec.engine
-        obs, raw = monitor_obs(eng, mol, mi, node, prev, step_fudge, max_force, np.asarray(eng.boxsize, float), grid_holder.get("grid"))
+        box = np.asarray(grid_holder["box"] if grid_holder.get("box") is not None else eng.boxsize, float)
+        obs, raw = monitor_obs(eng, mol, mi, node, prev, step_fudge, max_force, box, grid_holder.get("grid"),
+                               sizes=grid_holder.get("sizes"), mols=rec.topology.molecules if grid_holder.get("sizes") is not None else None)
         ev["obs"], ev["raw"] = obs, raw
     return mon
 
@@ -104,16 +124,20 @@ def _alarm(signum, frame):
 
 # ------------------------------------------------------------------ lattice runs (exact part)
 
-def lattice_top(chains, closed=()):
+def lattice_top(chains, closed=(), stars=()):
+    """molecule m is called C<m> in every system: a chain, a ring (closed) or a star (residues 2.. bonded to residue 1)"""
     lines = ["[ defaults ]", "1 2 no 1.0 1.0", "[ atomtypes ]", "P 72.0 0.0 A %.2f 4.0" % H]
     for m, n in enumerate(chains, 1):
         lines += ["[ moleculetype ]", "C%d 1" % m, "[ atoms ]"]
         lines += ["%d P %d RA B %d 0.0 72" % (i, i, i) for i in range(1, n + 1)]
         if n > 1:
             lines.append("[ bonds ]")
-            lines += ["%d %d 1 %.2f 100" % (i, i + 1, H) for i in range(1, n)]
-            if m in closed and n > 2:
-                lines.append("%d 1 1 %.2f 100" % (n, H))
+            if m in stars:
+                lines += ["1 %d 1 %.2f 100" % (i, H) for i in range(2, n + 1)]
+            else:
+                lines += ["%d %d 1 %.2f 100" % (i, i + 1, H) for i in range(1, n)]
+                if m in closed and n > 2:
+                    lines.append("%d 1 1 %.2f 100" % (n, H))
     lines += ["[ system ]", "lattice", "[ molecules ]"] + ["C%d 1" % m for m in range(1, len(chains) + 1)]
     return "\n".join(lines) + "\n"
 
@@ -122,8 +146,14 @@ class Scripted(Exception):
     pass
 
 
-def lattice_run(L, chains, grid, bundle, maxiter, script=None, seed=0, closed=()):
+FORCE_LIMIT = 4e4     # Force = TRUE in LatticeWalk: residue size 2 H, step factor 1/2, this force limit
+
+
+def lattice_run(L, chains, grid, bundle, maxiter, script=None, seed=0, closed=(), stars=(), force=False, max_abandon=None):
     """run the real BuildSystem on the lattice instance; script = list of ("start", grid index) / ("draw", vector index) or None (real draws).
+    force: the instance in which the force criterion decides on the lattice (see LatticeWalk.ForceOK).
+    max_abandon: a molecule abandoned more often than this in a row is taken as a jammed lattice (accepted molecules never move, so the
+    remaining one may have no room left and the code would try for ever): _Timeout("jam") is raised - no verdict, independent of the machine.
     returns (events, final positions, error)"""
     from polyply.src.topology import Topology
     from polyply.src import build_system as bs, random_walk as rw
@@ -200,10 +230,15 @@ def lattice_run(L, chains, grid, bundle, maxiter, script=None, seed=0, closed=()
     o_rem = NonBondEngine.remove_positions
     inh = {"v": False, "rw": False}
 
+    nab = {}
+
     def remove_positions(self, mol_idx, keys):
         r = o_rem(self, mol_idx, keys)
         if inh["v"] and not inh["rw"]:
             events.append({"ev": "abandon", "m": int(mol_idx) + 1})
+            nab[int(mol_idx)] = nab.get(int(mol_idx), 0) + 1
+            if max_abandon is not None and nab[int(mol_idx)] > max_abandon:
+                raise _Timeout("jam")
         return r
 
     def handle(self, molecule, mol_idx, vs):
@@ -230,10 +265,10 @@ def lattice_run(L, chains, grid, bundle, maxiter, script=None, seed=0, closed=()
         return o_npri(*a, **k) if v is None else v
     with tempfile.TemporaryDirectory(prefix="verif_c05_", dir="/var/tmp") as wd:
         top = Path(wd) / "l.top"
-        top.write_text(lattice_top(chains, closed))
+        top.write_text(lattice_top(chains, closed, stars))
         topology = Topology.from_gmx_topfile(name="lattice", path=top)
         topology.preprocess()
-        topology.volumes = {"RA": H}
+        topology.volumes = {"RA": 2 * H if force else H}
         np.random.seed(seed)
         pyrandom.seed(seed)
         patch(rw, "_take_step", take_step)
@@ -247,7 +282,7 @@ def lattice_run(L, chains, grid, bundle, maxiter, script=None, seed=0, closed=()
         err = None
         try:
             sysb = bs.BuildSystem(topology, density=None, start_dict={i: None for i in range(len(chains))}, box=box, grid=gridarr,
-                                  maxiter=10 ** 6, nrewind=50, step_fudge=1.0, max_force=1e3)
+                                  maxiter=10 ** 6, nrewind=50, step_fudge=0.5 if force else 1.0, max_force=FORCE_LIMIT if force else 1e3)
             sysb.run_system(topology.molecules)
         except Scripted as exc:
             err = "SCRIPT: %s" % exc
@@ -262,6 +297,38 @@ def lattice_run(L, chains, grid, bundle, maxiter, script=None, seed=0, closed=()
     return events, pos, err
 
 
+def history_run(L, history, grid, bundle, maxiter, script=None, seed=0, force=False, max_abandon=None):
+    """the systems of `history` ([{chains, closed, stars}, ...]) built one after the other IN THIS PROCESS (a new topology and a new
+    BuildSystem for each, as a library user / a parameter scan does); a {"ev": "build", "b": n} event precedes the events of system n.
+    script: one list of scripted choices for the whole history, ("build",) separates the systems.
+    returns (events, [final positions of every system], error)"""
+    scripts = None
+    if script is not None:
+        scripts = [[]]
+        for x in script:
+            if x[0] == "build":
+                scripts.append([])
+            else:
+                scripts[-1].append(x)
+        if len(scripts) != len(history):
+            return [], [], "SCRIPT: %d parts for %d systems" % (len(scripts), len(history))
+    evs, poss = [], []
+    for b, sysd in enumerate(history):
+        if b:
+            evs.append({"ev": "build", "b": b + 1})
+        e, p, err = lattice_run(L, sysd["chains"], grid, bundle, maxiter, scripts[b] if scripts is not None else None, seed=seed + 7919 * b,
+                                closed=sysd.get("closed", ()), stars=sysd.get("stars", ()), force=force, max_abandon=max_abandon)
+        evs += e
+        poss.append(p)
+        if err:
+            return evs, poss, "system %d of the history: %s" % (b + 1, err)
+    return evs, poss, None
+
+
+def case_history(case):
+    return case["history"] if "history" in case else [{"chains": case["chains"], "closed": case.get("closed", []), "stars": []}]
+
+
 def script_from(case):
     grid = [list(g) for g in case["grid"]]
     out = []
@@ -270,6 +337,27 @@ def script_from(case):
             out.append(("start", grid.index(list(e["g"]))))
         elif e["ev"] == "draw":
             out.append(("draw", e["i"] - 1))
+        elif e["ev"] == "build":
+            out.append(("build",))
+    return out
+
+
+def positions_from(evs, history):
+    """final positions of every system of the history implied by the events (accepted starts / draws; an abandoned molecule is cleared)"""
+    out, b = [], 0
+    cur = [[[-1, -1, -1] for _ in range(n)] for n in history[0]["chains"]]
+    for e in evs:
+        if e["ev"] == "build":
+            out.append(cur)
+            b += 1
+            cur = [[[-1, -1, -1] for _ in range(n)] for n in history[b]["chains"]]
+        elif e["ev"] == "start" and e["ok"]:
+            cur[e["m"] - 1][0] = list(e["g"])
+        elif e["ev"] == "draw" and e["ok"]:
+            cur[e["m"] - 1][e["r"] - 1] = list(e["to"])
+        elif e["ev"] == "abandon":
+            cur[e["m"] - 1] = [[-1, -1, -1] for _ in cur[e["m"] - 1]]
+    out.append(cur)
     return out
 
 
@@ -279,7 +367,7 @@ def strip(evs):
 
 def _lattice_replay(case):
     try:
-        evs, pos, err = lattice_run(case["L"], case["chains"], case["grid"], case["bundle"], case["maxiter"], script_from(case), closed=case.get("closed", ()))
+        evs, poss, err = history_run(case["L"], case_history(case), case["grid"], case["bundle"], case["maxiter"], script_from(case), force=bool(case.get("force")))
     except Exception as exc:
         return ("machinery", "%s: %s" % (type(exc).__name__, exc))
     exp = case["evs"]
@@ -291,9 +379,11 @@ def _lattice_replay(case):
             return ("diff", "event %d: observed %s, specification %s%s" % (i + 1, json.dumps(a), json.dumps(b), ("; " + err) if err else ""))
     if err:
         return ("diff", err)
-    exp_pos = [[list(p) for p in mol] for mol in case["pos"]]
-    if pos != exp_pos:
-        return ("diff", "final positions %s, specification %s" % (pos, exp_pos))
+    exp_pos = positions_from(exp, case_history(case))
+    if exp_pos[-1] != [[list(p) for p in mol] for mol in case["pos"]]:
+        return ("machinery", "final positions implied by the exported events %s differ from the exported state %s" % (exp_pos[-1], case["pos"]))
+    if poss != exp_pos:
+        return ("diff", "final positions of the systems %s, specification %s" % (poss, exp_pos))
     for e in evs:
         if e.get("obs") and not all(e["obs"].values()):
             return ("diff", "monitor: %s %s on %s" % (e["obs"], e["raw"], {k: e[k] for k in ("m", "r", "to")}))
@@ -301,17 +391,18 @@ def _lattice_replay(case):
 
 
 def _lattice_trace(arg):
-    sd, L, chains, grid, closed = arg
+    sd, L, history, grid, force = arg[:5]
+    cpu_limit = arg[5] if len(arg) > 5 else 25
     bundle = [1, 2, 3, 4, 5, 6] * 14
     # accepted molecules never move, so a dense lattice can become infeasible for the remaining ones: time limit, no verdict
     signal.signal(signal.SIGPROF, _alarm)
-    signal.setitimer(signal.ITIMER_PROF, 25, 5)     # CPU time of this process: the limit does not depend on the load of the machine
+    signal.setitimer(signal.ITIMER_PROF, cpu_limit, 5)     # CPU time of this process: the limit does not depend on the load of the machine
     signal.signal(signal.SIGALRM, _alarm)
     signal.setitimer(signal.ITIMER_REAL, 300, 5)     # wall-clock safety net
     try:
-        evs, pos, err = lattice_run(L, chains, grid, bundle, 80, None, seed=sd, closed=closed)
-    except _Timeout:
-        return {"noverdict": "timeout"}
+        evs, pos, err = history_run(L, history, grid, bundle, 80, None, seed=sd, force=force, max_abandon=400)
+    except _Timeout as exc:
+        return {"noverdict": str(exc) or "timeout"}
     except Exception as exc:
         return {"machinery": "%s: %s" % (type(exc).__name__, exc)}
     finally:
@@ -460,6 +551,57 @@ C4 6
 """
 
 
+def hist_top(mols):
+    """mols: [(molecule name, shape, number of residues, count)], shape = lin | ring | star; every residue is one bead and is called RA"""
+    lines = ["[ defaults ]", "1 2 no 1.0 1.0", "[ atomtypes ]", "P 72.0 0.0 A 0.47 4.0"]
+    for name, shape, n, _ in mols:
+        lines += ["[ moleculetype ]", "%s 1" % name, "[ atoms ]"]
+        lines += ["%d P %d RA B1 %d 0.0 72" % (i, i, i) for i in range(1, n + 1)]
+        if shape == "star":
+            bonds = [(1, i) for i in range(2, n + 1)]
+        else:
+            bonds = [(i, i + 1) for i in range(1, n)] + ([(n, 1)] if shape == "ring" else [])
+        lines += ["[ bonds ]"] + ["%d %d 1 0.47 100" % b for b in bonds]
+    lines += ["[ system ]", "history", "[ molecules ]"] + ["%s %d" % (name, cnt) for name, _, _, cnt in mols]
+    return "\n".join(lines) + "\n"
+
+
+# histories of systems built by gen_coords in ONE process: the molecule names POL / CYC and the residue name RA come back in every system
+# with another residue graph, another length, another count and another residue size; box, step factor and force limit change as well.
+# (systems, residue size, box scale, step factor scale, force limit scale) - the last system has the parameters of the run tuple
+HISTORIES = {
+    1: [([("POL", "star", 6, 4)], 0.50, 1.10, 0.9, 10.0),
+        ([("POL", "lin", 8, 25)], 0.45, 1.00, 1.0, 1.0)],
+    2: [([("POL", "lin", 6, 10), ("CYC", "ring", 5, 3)], 0.45, 0.90, 1.0, 5.0),
+        ([("POL", "star", 5, 12), ("CYC", "lin", 7, 5)], 0.55, 1.15, 0.9, 2.0),
+        ([("POL", "ring", 6, 6), ("CYC", "star", 4, 6)], 0.50, 1.00, 1.0, 1.0)],
+}
+
+
+def _history_runs(wd, which, box, step_fudge, max_force, nrewind):
+    """one trace per system; every system gets its own monitor parameters (sizes, box, grid, step factor, limit), all from the harness"""
+    from polyply import gen_coords
+    out = []
+    for b, (mols, size, bs, fs, ms) in enumerate(HISTORIES[which], 1):
+        top = wd / ("h%d.top" % b)
+        top.write_text(hist_top(mols))
+        bld = wd / ("h%d.bld" % b)
+        bld.write_text("[ volumes ]\nRA %.3f\n" % size)
+        bx = np.array(box, float) * bs
+        sf, mf = step_fudge * fs, max_force * ms
+        holder = {"grid": np.mgrid[0:bx[0]:0.2, 0:bx[1]:0.2, 0:bx[2]:0.2].reshape(3, -1).T, "box": bx, "sizes": {"RA": size}}
+        with w.recording(monitor=make_monitor(sf, mf, holder)) as rec:
+            try:
+                gen_coords(toppath=top, outpath=wd / ("o%d.gro" % b), name="t", box=bx.copy(), build=[bld], max_force=mf, nrewind=nrewind, step_fudge=sf)
+            except _Timeout:
+                raise
+            except Exception as exc:
+                out.append({"inst": rec.header, "evs": rec.events, "error_in_code": "system %d of the history: %s: %s" % (b, type(exc).__name__, exc)})
+                return out
+        out.append({"inst": rec.header, "evs": rec.events, "error_in_code": None, "system": b})
+    return out
+
+
 def slab_files(wd, sd, nw=5200):
     """more than 5000 supplied residues in a slab (the engine opens a second search tree), the rest is built from a small user grid"""
     rng = np.random.default_rng(sd)
@@ -542,6 +684,8 @@ def _real_run(arg):
                     except Exception as exc:
                         return {"inst": rec.header, "evs": rec.events, "error_in_code": "%s: %s" % (type(exc).__name__, exc)}
                 return {"inst": rec.header, "evs": rec.events, "error_in_code": None}
+            if kind == "history":
+                return {"multi": _history_runs(wd, int(usegrid), box, step_fudge, max_force, nrewind)}
             if kind == "sizes":
                 # strongly mixed residue sizes given in a build file: chains of 1.3 nm residues (step length above 1 nm) and 0.2 nm solvent
                 # placed after them (size ratio 6.5); every accepted placement is judged by the monitor with the single global cut-off
@@ -588,13 +732,24 @@ def _real_run(arg):
         signal.setitimer(signal.ITIMER_REAL, 0)
 
 
-def validate_lattice(ck, doc, name, expect_reject=False):
+def lattice_tlc(doc, name):
+    """LatticeTrace on one document of traces (may run in a thread next to others)"""
     wd = c.workdir("C05", name)
     f = wd / "traces.json"
     f.write_text(json.dumps(doc))
     cfg = wd / "Lat_trace.cfg"
-    cfg.write_text((c.SPEC / "Lat_trace.cfg").read_text().replace("L = 3", "L = %d" % doc["L"]))
-    res = c.tlc("LatticeTrace", cfg, workers=1, env={"TRACE_FILE": str(f)}, check=False, timeout=3000)
+    txt = (c.SPEC / "Lat_trace.cfg").read_text()
+    if "L = 3" not in txt or "Force = FALSE" not in txt:
+        raise c.MachineryError("Lat_trace.cfg: constants L / Force not found")
+    cfg.write_text(txt.replace("L = 3", "L = %d" % doc["L"]).replace("Force = FALSE", "Force = %s" % ("TRUE" if doc.get("force") else "FALSE")))
+    return c.tlc("LatticeTrace", cfg, workers=1, env={"TRACE_FILE": str(f)}, check=False, timeout=3000)
+
+
+def validate_lattice(ck, doc, name, expect_reject=False, res=None):
+    if res is None:
+        res = lattice_tlc(doc, name)
+    if isinstance(res, Exception):
+        raise res
     rej = res.tagged("REJECTED")
     if res.rc != 0 and not rej and not res.inv_violated:
         raise c.MachineryError("LatticeTrace failed: %s" % res.out[-2500:])
@@ -611,7 +766,7 @@ def validate_lattice(ck, doc, name, expect_reject=False):
     ck.traces += len(doc["traces"]) - len(rejected)
     for tid, matched in sorted(rejected.items()):
         tr = doc["traces"][tid - 1]
-        ck.violation({"kind": "lattice trace", "doc": {k: doc[k] for k in ("L", "chains", "closed", "grid", "bundle")}, "evs": tr[:matched + 1], "matched": matched},
+        ck.violation({"kind": "lattice trace", "doc": {k: doc[k] for k in ("L", "history", "force", "grid", "bundle")}, "evs": tr[:matched + 1], "matched": matched},
                      what="lattice run rejected by LatticeWalk after %d matched events; next event %s" % (matched, json.dumps(tr[matched])[:300] if matched < len(tr) else None))
     return rejected
 
@@ -622,21 +777,52 @@ def run(tier):
     rng = random.Random(sd)
     ck.rule = ("S->I: all complete lattice behaviours (2 chains of 3 in a 2x2x2 periodic box, 3 grid points, 6-vector bundle) with at most 2 rejected "
                "choices; I->S exact: lattice runs (3x3x3 box, 2 chains of 7, 84-vector bundle) with real random draws; I->S monitor: real gen_coords runs on "
-               "dense melts and a branched/cyclic mixture with cubic and non-cubic boxes, step factors 0.8/1.0/1.2, force limits, default and user grids")
-    ck.assumptions = ["on the lattice the acceptance test is decided exactly (site free or not); the soft-sphere force value is recomputed by an independent numeric monitor (12-6 gradient, minimum image, rtol 1e-9)",
+               "dense melts and a branched/cyclic mixture with cubic and non-cubic boxes, step factors 0.8/1.0/1.2, force limits, default and user grids. "
+               "Histories of systems built in ONE process (same molecule / residue names, other residue graphs, lengths, counts, sizes, boxes): S->I all complete "
+               "two-system lattice histories (ring C1, then chain C1; 3x3x3 box, force criterion decided on the lattice) with at most one rejection; I->S exact: "
+               "three-system lattice histories with real draws; I->S monitor: gen_coords called two / three times in one process")
+    ck.assumptions = ["on the lattice the acceptance test is decided exactly (site free or not; with Force = TRUE - residue size two lattice units, step factor 1/2, limit 4e4, 3x3x3 box - "
+                      "also the force criterion: accepted iff on every axis the two adjacent sites hold equally many non-neighbours, LatticeWalk.ForceOK with the arithmetic in an ASSUME); "
+                      "the soft-sphere force value is recomputed by an independent numeric monitor (12-6 gradient, minimum image, rtol 1e-9)",
+                      "in the gen_coords histories the monitor takes residue sizes, box, grid, step factor and force limit from what the harness wrote for THAT call, not from the engine",
                       "distances compared with 1e-6 nm tolerance; threshold-equal distances are avoided by construction (lattice spacing 0.5 nm)"]
     ck.stage("TLC: lattice model, sensitivity, export")
     wd = c.workdir("C05", "cfg")
     q3 = wd / "Lat_q3.cfg"
-    q3.write_text((c.SPEC / "Lat_small3.cfg").read_text().replace("Chains43", "Chains3x2").replace("MaxReject = 3", "MaxReject = 3"))
+    q3txt = (c.SPEC / "Lat_small3.cfg").read_text()
+    if "History <- H43" not in q3txt:
+        raise c.MachineryError("Lat_small3.cfg: History <- H43 not found")
+    q3.write_text(q3txt.replace("History <- H43", "History <- H3x2"))
+    # histories of systems built in one process (Force = TRUE: the force criterion decides on the lattice): complete graphs without a
+    # bound on rejections; quick: ring -> chains; thorough: three more histories
+    hists = ["HRingChain"] if tier == "quick" else ["HRingChain", "HStarChain", "HChainStar", "HChainRing"]
+    hcfgs = []
+    for hname in hists:
+        hc = wd / ("Lat_hist_%s.cfg" % hname)
+        htxt = (c.SPEC / "Lat_hist.cfg").read_text()
+        if "History <- HRingChain" not in htxt:
+            raise c.MachineryError("Lat_hist.cfg: History <- HRingChain not found")
+        hc.write_text(htxt.replace("History <- HRingChain", "History <- %s" % hname))
+        hcfgs.append(hc)
     jobs = [("MC_Lattice", "Lat_small.cfg", {"workers": 4}),
             ("MC_Lattice", "Lat_unbounded.cfg" if tier == "quick" else "Lat_unbounded3.cfg", {"workers": 2 if tier == "quick" else 6, "timeout": 3000}),
             ("MC_Lattice", q3 if tier == "quick" else "Lat_small3.cfg", {"workers": 6, "timeout": 3000}),
             ("MC_Lattice", "Lat_dev_nowrap.cfg", {"check": False, "workers": 1}),
             ("MC_Lattice", "Lat_dev_nooverlap.cfg", {"check": False, "workers": 1}),
             ("MC_Lattice", "Lat_dev_neigh.cfg", {"check": False, "workers": 1}),
-            ("LatticeExport", "Lat_export.cfg", {"workers": 4})]
-    small, unb, small3, d1, d2, d3, ex = c.tlc_many(jobs)
+            ("LatticeExport", "Lat_export.cfg", {"workers": 4}),
+            ("MC_Lattice", "Lat_dev_stale.cfg", {"check": False, "workers": 1}),
+            ("LatticeExport", "Lat_export_hist.cfg", {"workers": 4, "timeout": 3000})]
+    jobs += [("MC_Lattice", hc, {"workers": 2, "timeout": 3000}) for hc in hcfgs]
+    if tier != "quick":
+        jobs.append(("MC_Lattice", "Lat_dev_noforce.cfg", {"check": False, "workers": 1}))
+    res = c.tlc_many(jobs)
+    small, unb, small3, d1, d2, d3, ex, d4, exh = res[:9]
+    d5 = res[-1] if tier != "quick" else None
+    for hname, hres in zip(hists, res[9:]):
+        ck.model_must_hold(hres, "StepOne/InBox/NoOverlap/RootOnGrid/Contiguous/Final/ForceWithinLimit for the history %s of systems built in one process "
+                                 "(Force = TRUE, L=3, no bound on rejections): acceptance depends on the system being built only" % hname)
+        ck.extra.setdefault("history_models", {})[hname] = hres.distinct
     ck.model_must_hold(small, "StepOne/InBox/NoOverlap/RootOnGrid/Contiguous/Final (L=2)")
     ck.model_must_hold(unb, "the same invariants on the COMPLETE reachable state graph with no bound on rejected draws / starts (MaxReject <- Unlimited: `rejects` frozen, "
                             "all other variables range over finite sets, so every rejection schedule of any length is a path of this graph; L=2, ring + chain)")
@@ -645,14 +831,27 @@ def run(tier):
     ck.model_must_refute(d1, "InBox", "new position not wrapped into the box")
     ck.model_must_refute(d2, "NoOverlap", "overlap test bypassed")
     ck.model_must_refute(d3, "NoOverlap", "0.1 nm test skipped for bonded neighbours (ring-closing residue)")
+    ck.model_must_refute(d4, "ForceWithinLimit", "neighbour table of a molecule name remembered from an earlier system of the same process (ring, then chain)")
+    if d5 is not None:
+        ck.model_must_refute(d5, "ForceWithinLimit", "force test bypassed")
     ck.model_must_hold(ex, "export")
+    ck.model_must_hold(exh, "export of the two-system histories (ring C1, then chain C1; Force = TRUE)")
     cases = ex.cases()
     ck.require(len(cases) > 1000, "too few lattice behaviours exported: %d" % len(cases))
     ck.extra["exported_behaviours"] = len(cases)
+    hcases = exh.cases()
+    ck.require(len(hcases) > 1000, "too few lattice histories exported: %d" % len(hcases))
+    ck.extra["exported_histories"] = len(hcases)
+    ck.require(all(len(x["history"]) == 2 and x["force"] for x in hcases[:50]), "exported histories do not have two systems / Force")
     if tier == "quick":
         rej = [x for x in cases if any(not e.get("ok", True) for e in x["evs"])]
         plain = [x for x in cases if not any(not e.get("ok", True) for e in x["evs"])]
         cases = rng.sample(rej, min(len(rej), 1700)) + rng.sample(plain, min(len(plain), 500))
+        hrej = [x for x in hcases if any(not e.get("ok", True) for e in x["evs"])]
+        hplain = [x for x in hcases if not any(not e.get("ok", True) for e in x["evs"])]
+        hcases = rng.sample(hrej, min(len(hrej), 450)) + rng.sample(hplain, min(len(hplain), 150))
+    ck.extra["replayed_histories"] = len(hcases)
+    cases = cases + hcases
     ck.stage("S->I: replay of %d lattice behaviours" % len(cases))
     ck.sample({"lattice behaviour": cases[0]["evs"], "final": cases[0]["pos"]})
     for cs, (kind, msg) in zip(cases, c.pmap(_lattice_replay, cases, chunksize=8)):
@@ -666,11 +865,18 @@ def run(tier):
         if kind == "diff":
             ck.violation({"kind": "lattice replay", "case": cs}, what="lattice behaviour %s: %s" % (script_from(cs), msg))
     ck.require(ck.actions.get("draw:rejected") and ck.actions.get("start:rejected") and ck.actions.get("abandon"), "replayed lattice behaviours contain no rejection / abandon")
+    ck.require(ck.actions.get("build"), "no history of systems built in one process among the replayed behaviours")
     ck.stage("I->S exact: lattice runs with real draws")
     grid3 = [[0, 0, 0], [2, 2, 2], [1, 0, 2], [0, 1, 1], [2, 0, 1]]
     n = 40 if tier == "quick" else 400
     lchains, lclosed = [3, 3, 5, 3], [1, 2, 4]      # three 3-rings (the closing residue can step back onto residue 1) and a chain
-    outs = c.pmap(_lattice_trace, [(sd * 1000 + i, 3, lchains, grid3, lclosed) for i in range(n)], chunksize=2)
+    lhist = [{"chains": lchains, "closed": lclosed, "stars": []}]
+    # histories with the force criterion: three systems in one process, the names C1 / C2 / C3 with other graphs, lengths and counts each time
+    fhist = [{"chains": [3, 4], "closed": [1], "stars": [2]}, {"chains": [4, 3, 2], "closed": [], "stars": []}, {"chains": [4, 3], "closed": [1], "stars": []}]
+    nh = 24 if tier == "quick" else 240
+    gridall = [[x, y, z] for x in range(3) for y in range(3) for z in range(3)]     # every site is a start point: a start is found whenever one exists
+    outs = c.pmap(_lattice_trace, [(sd * 1000 + i, 3, lhist, grid3, False) for i in range(n)] + [(sd * 1000 + 500 + i, 3, fhist, gridall, True, 8) for i in range(nh)], chunksize=2)
+    houts, outs = outs[n:], outs[:n]
     traces = []
     for o in outs:
         if "noverdict" in o:
@@ -682,17 +888,61 @@ def run(tier):
             ck.violation({"kind": "lattice run", "error": o["err"], "evs": o["evs"][-10:]}, what="lattice run with real draws failed: %s" % o["err"])
             continue
         traces.append(o["evs"])
-    doc = {"L": 3, "chains": lchains, "closed": lclosed, "grid": grid3, "bundle": [1, 2, 3, 4, 5, 6] * 14, "traces": traces}
+    htraces = []
+    for o in houts:
+        if "noverdict" in o:
+            ck.extra["lattice_no_verdict"] = ck.extra.get("lattice_no_verdict", 0) + 1
+            continue
+        if "machinery" in o:
+            raise c.MachineryError(o["machinery"])
+        if o["err"]:
+            ck.violation({"kind": "lattice run", "error": o["err"], "evs": o["evs"][-10:]}, what="lattice history with real draws failed: %s" % o["err"])
+            continue
+        htraces.append(o["evs"])
+    bundle84 = [1, 2, 3, 4, 5, 6] * 14
+    docs = {}
+    if ck.require(len(htraces) >= nh // 2, "too few lattice histories with real draws came to an end: %d of %d" % (len(htraces), nh)):
+        docs["lattice_hist"] = {"L": 3, "history": fhist, "force": True, "grid": gridall, "bundle": bundle84, "traces": htraces}
     if traces:
-        validate_lattice(ck, doc, "lattice")
-        wraps = sum(1 for t in traces for e in t if e["ev"] == "draw" and e["ok"] and (0 in e["to"] or 2 in e["to"]))
-        ck.extra["lattice_trace_rejected_draws"] = sum(1 for t in traces for e in t if e["ev"] == "draw" and not e["ok"])
-        ck.require(ck.extra["lattice_trace_rejected_draws"] > 0, "no rejected draw in the lattice traces")
-        demo = json.loads(json.dumps(doc))
+        docs["lattice"] = {"L": 3, "history": lhist, "force": False, "grid": grid3, "bundle": bundle84, "traces": traces}
+        demo = json.loads(json.dumps(docs["lattice"]))
         demo["traces"] = demo["traces"][:2]
         k = next(i for i, e in enumerate(demo["traces"][0]) if e["ev"] == "draw" and e["ok"])
         demo["traces"][0][k]["to"][0] = (demo["traces"][0][k]["to"][0] + 1) % 3
-        rej = validate_lattice(ck, demo, "demo", expect_reject=True)
+        docs["demo"] = demo
+    if "lattice_hist" in docs:
+        # a history in which the neighbours of an earlier system are used: a chain C1 whose third residue is accepted next to its first
+        # residue (allowed in the ring C1 of the system before, not in the chain)
+        docs["demo_hist"] = {"L": 3, "history": [{"chains": [3], "closed": [1], "stars": []}, {"chains": [3], "closed": [], "stars": []}], "force": True,
+                             "grid": gridall, "bundle": [1, 2, 3, 4, 5, 6], "traces": [
+            [{"ev": "start", "m": 1, "g": [0, 0, 0], "ok": True}, {"ev": "draw", "m": 1, "r": 2, "i": 1, "to": [1, 0, 0], "ok": True},
+             {"ev": "draw", "m": 1, "r": 3, "i": 1, "to": [2, 0, 0], "ok": True}, {"ev": "accept", "m": 1}, {"ev": "build", "b": 2},
+             {"ev": "start", "m": 1, "g": [0, 0, 0], "ok": True}, {"ev": "draw", "m": 1, "r": 2, "i": 1, "to": [1, 0, 0], "ok": True},
+             {"ev": "draw", "m": 1, "r": 3, "i": 1, "to": [2, 0, 0], "ok": True}, {"ev": "accept", "m": 1}]]}
+    from concurrent.futures import ThreadPoolExecutor
+
+    def _one(name):
+        try:
+            return lattice_tlc(docs[name], name)
+        except Exception as exc:       # re-raised by validate_lattice in the main thread
+            return exc
+    with ThreadPoolExecutor(max(1, len(docs))) as ex:
+        tres = dict(zip(docs, ex.map(_one, list(docs))))
+    if "lattice_hist" in docs:
+        validate_lattice(ck, docs["lattice_hist"], "lattice_hist", res=tres["lattice_hist"])
+        ck.extra["lattice_history_traces"] = len(htraces)
+        ck.extra["lattice_history_rejected_draws"] = sum(1 for t in htraces for e in t if e["ev"] in ("draw", "start") and not e["ok"])
+        ck.require(ck.extra["lattice_history_rejected_draws"] > 0, "no rejected draw in the lattice histories")
+        rej = validate_lattice(ck, docs["demo_hist"], "demo_hist", expect_reject=True, res=tres["demo_hist"])
+        if rej.get(1) != 7:
+            raise c.MachineryError("binding demonstration failed: a lattice history that uses the neighbours of the system built before was not rejected "
+                                   "at the acceptance in the second system (%s)" % rej)
+        ck.extra["binding_demo_history"] = "lattice history accepting a residue under the neighbours of the system built before: rejected after %d matched events" % rej[1]
+    if traces:
+        validate_lattice(ck, docs["lattice"], "lattice", res=tres["lattice"])
+        ck.extra["lattice_trace_rejected_draws"] = sum(1 for t in traces for e in t if e["ev"] == "draw" and not e["ok"])
+        ck.require(ck.extra["lattice_trace_rejected_draws"] > 0, "no rejected draw in the lattice traces")
+        rej = validate_lattice(ck, docs["demo"], "demo", expect_reject=True, res=tres["demo"])
         if 1 not in rej:
             raise c.MachineryError("binding demonstration failed: a lattice trace with a corrupted position was accepted")
         ck.extra["binding_demo"] = "lattice trace with one corrupted position rejected after %d matched events" % rej[1]
@@ -711,13 +961,27 @@ def run(tier):
     # strongly mixed residue sizes, step length above 1 nm
     runs.append(("sizes", [7.0, 7.0, 7.0], 1.0, 1e3, 3, sd * 100 + 50, False))
     runs.append(("sizes", [6.5, 7.0, 7.5], 0.8, 5e4, 5, sd * 100 + 51, False))
+    # histories of gen_coords calls in one process (last field: which of HISTORIES)
+    runs.append(("history", [4.5, 4.5, 4.5], 1.0, 200.0, 5, sd * 100 + 80, 1))
+    runs.append(("history", [4.0, 4.4, 4.2], 1.0, 500.0, 3, sd * 100 + 81, 2))
+    runs.append(("history", [5.0, 4.6, 4.8], 0.9, 300.0, 5, sd * 100 + 82, 1))
     if tier == "thorough":
+        runs += [("history", [4.5, 4.2, 4.8], sf, mf, 4, sd * 100 + 90 + i, 1 + i % 2) for i, (sf, mf) in enumerate([(1.0, 200.0), (1.0, 1e3), (0.9, 300.0), (1.1, 500.0), (0.8, 2e3), (1.0, 5e4)])]
         runs += [("sizes", [7.0, 7.0, 7.0], sf, mf, 3, sd * 100 + 70 + i, False) for i, (sf, mf) in enumerate([(1.0, 1e3), (1.2, 1e3), (0.8, 5e4), (1.0, 5e4)])]
         runs += [("rebuild", [3.5, 3.5, 3.5], sf, 5e4, nr, sd * 100 + 60 + i, False) for i, (sf, nr) in enumerate([(1.0, 2), (1.0, 3), (0.8, 4), (1.2, 5), (1.0, 1), (0.8, 2)])]
         runs += [(k, b, sf, mf, nr, sd * 100 + 10 + i, g) for i, (k, b, sf, mf, nr, g) in enumerate(
             [(k, b, sf, mf, nr, g) for k in ("melt", "mix") for b in ([3.0, 3.0, 3.0], [2.7, 3.1, 3.3]) for sf in (0.8, 1.0, 1.2)
              for mf, nr, g in ((3000.0, 3, False), (1e3, 5, True))])]
-    rtr = c17.collect(ck, c.pmap(_real_run, runs), "real runs")
+    results, run_of = [], []
+    for rn, out in zip(runs, c.pmap(_real_run, runs)):
+        for part in (out["multi"] if "multi" in out else [out]):
+            results.append(part)
+            if not ("error" in part or "noverdict" in part or part.get("error_in_code")):
+                run_of.append(rn)        # run_of[i] = run tuple of the i-th trace handed to WalkTrace
+    nhist = sum(1 for rn in run_of if rn[0] == "history")
+    ck.extra["history_system_traces"] = nhist
+    rtr = c17.collect(ck, results, "real runs")      # exceptions of the code become violations here; the requirement below comes after them
+    ck.require(nhist >= 4, "too few systems of gen_coords histories were recorded: %d" % nhist)
     nplace = sum(1 for t in rtr for e in t["evs"] if e["ev"] in ("ok", "root"))
     ck.extra["monitored_placements"] = nplace
     if ck.require(bool(rtr) and nplace > 100, "too few monitored placements: %d" % nplace):
@@ -735,8 +999,9 @@ def run(tier):
         ck.traces += len(rtr) - len(rej)
         for tid, matched in sorted(rej.items()):
             ev = rtr[tid - 1]["evs"][matched] if matched < len(rtr[tid - 1]["evs"]) else None
-            ck.violation({"kind": "real run", "run": runs[tid - 1] if tid - 1 < len(runs) else None, "event": ev, "matched": matched},
-                         what="real gen_coords run %s rejected after %d events; next event %s" % (runs[tid - 1] if tid - 1 < len(runs) else "", matched, json.dumps(ev)[:500]))
+            rn = run_of[tid - 1] if tid - 1 < len(run_of) else None
+            ck.violation({"kind": "real run", "run": rn, "event": ev, "matched": matched},
+                         what="real gen_coords run %s rejected after %d events; next event %s" % (rn or "", matched, json.dumps(ev)[:500]))
         ck.sample({"monitored placement": next(e for e in rtr[0]["evs"] if e["ev"] == "ok")})
     ck.exhaustive = True
     return ck.finish()
@@ -751,8 +1016,9 @@ def replay(path):
         return 1 if kind == "diff" else 0
     if case["kind"] == "real run" and case.get("run"):
         out = _real_run(tuple(case["run"]))
-        bad = [e for e in out.get("evs", []) if e.get("obs") and not all(e["obs"].values())]
+        parts = out["multi"] if "multi" in out else [out]
+        bad = [e for o in parts for e in o.get("evs", []) if e.get("obs") and not all(e["obs"].values())]
         print("replayed: %d placements fail the monitor" % len(bad), bad[:1])
-        return 1 if bad or out.get("error_in_code") else 0
+        return 1 if bad or any(o.get("error_in_code") for o in parts) else 0
     print("no replay for kind", case["kind"])
     return 0
